@@ -37,6 +37,10 @@ def load_known(prop):
             if e["property"] == prop and e.get("status", "open") == "open"]
 
 
+def replay_dir_of(prop, tier, a):
+    return os.path.join(HERE, "replays", prop, f"{tier}-s{a.seed}" if os.path.abspath(a.repo) == "/repo" else "scratch")
+
+
 def main(argv=None):
     ap = argparse.ArgumentParser()
     ap.add_argument("prop")
@@ -64,7 +68,7 @@ def main(argv=None):
     env.pop("PYTHONPATH", None)
     # replays live in replays/<prop>/<tier>-s<seed>/ (runs against a scratch copy: .../scratch/); a new run of the same
     # tier and seed makes the earlier replays of that run stale
-    replay_dir = os.path.join(HERE, "replays", prop, f"{tier}-s{a.seed}" if os.path.abspath(a.repo) == "/repo" else "scratch")
+    replay_dir = replay_dir_of(prop, tier, a)
     if not a.replay:
         import shutil
         shutil.rmtree(replay_dir, ignore_errors=True)
@@ -173,7 +177,7 @@ def finish(prop, tier, a, meta, results, nshards, t0, tmpd):
         if f["fp"] in seen_fp:
             continue
         seen_fp.add(f["fp"])
-        d = replay_dir
+        d = replay_dir_of(prop, tier, a)
         os.makedirs(d, exist_ok=True)
         import hashlib
         name = hashlib.md5(f["fp"].encode()).hexdigest()[:10] + ".json"
